@@ -71,6 +71,14 @@ def inject(scratch, units, extra_tests=None):
                 a, b = rustscan.find_expr_after(src, it, s['key'], s.get('nth', 0))
             elif kind == 'call':
                 a, b = rustscan.find_call(src, it, s['key'], s.get('nth', 0))
+            elif kind == 'callat':
+                # key must end with the opening parenthesis of the call expression to cut out
+                ms = list(re.finditer(s['key'], rustscan.mask(src)[it.body_open:it.body_close]))
+                if len(ms) <= s.get('nth', 0):
+                    raise rustscan.LostAnchor(f'unit {u.name}: /{s["key"]}/ (#{s.get("nth", 0)}) not found in fn {s["fn"]}')
+                mm = ms[s.get('nth', 0)]
+                a = it.body_open + mm.start()
+                b = rustscan.match_brace(rustscan.mask(src), it.body_open + mm.end() - 1) + 1
             elif kind == 'regex':
                 ms = list(re.finditer(s['key'], rustscan.mask(src)[it.body_open:it.body_close]))
                 if len(ms) <= s.get('nth', 0):
@@ -281,7 +289,7 @@ class KaniRun:
         if playback:
             cmd += ['-Z', 'concrete-playback', '--concrete-playback=print']
         cmd += tail
-        to = timeout or h.get('timeout', 300)
+        to = timeout or h.get('timeout', 480)
         rc, out, wall, rss, reason = run(cmd, cwd=self.scratch, timeout=to, rss_limit_gb=h.get('rss_gb', 10))
         return {'cmd': ' '.join(cmd), 'rc': rc, 'out': out, 'wall_s': round(wall, 2), 'peak_rss_mb': rss, 'killed': reason}
 
